@@ -165,3 +165,99 @@ type c16LockerForPool struct{}
 
 func (c16LockerForPool) Lock()   {}
 func (c16LockerForPool) Unlock() {}
+
+// VerifC14InsertionDecision: decision table of the pool insertion for one account with confirmed block S (height 1)
+// and pooled blocks B2[,B3]: a candidate at height 1..4 with a right or wrong predecessor, equal to or competing with
+// the block pooled at its height, with arbitrary plasma fields, forced or not.  Afterwards the pool is always one chain
+// extending S; a confirmed block is never displaced; a competitor replaces pooled blocks only if it wins the priority
+// rule (or is forced); everything else is refused without change.
+func VerifC14InsertionDecision() {
+	c14Registry = nil
+	var addr types.Address
+	addr[0] = types.UserAddrByte
+	addr[19] = 9
+	S := c14Mk(addr, 1, 1, types.ZeroHash)
+	st := &c14Stable{dbs: map[types.Address]db.DB{addr: c14StableDB(addr, []*nom.AccountBlock{S})}}
+	ap := newAccountPool(st)
+	lock := c16LockerForPool{}
+	pooledN := verifNondetLen("pooled blocks", 0, 2)
+	B2 := c14Mk(addr, 2, 2, S.Hash)
+	B3 := c14Mk(addr, 2, 3, B2.Hash)
+	chain := []*nom.AccountBlock{S, B2, B3}[:1+pooledN]
+	for _, b := range chain[1:] {
+		verifAssert(ap.AddAccountBlockTransaction(lock, &nom.AccountBlockTransaction{Block: b, Changes: db.NewPatch()}) == nil, "pool insert")
+	}
+	frontier := chain[len(chain)-1]
+
+	hc := uint64(verifNondetLen("candidate height", 1, 4))
+	C := c14Mk(addr, 5, hc, types.ZeroHash)
+	prevRight := verifNondetBool("candidate names the block the pool has at height-1")
+	if hc >= 2 && int(hc-1) <= len(chain) && prevRight {
+		C.PreviousHash = chain[hc-2].Hash
+	} else if hc >= 2 {
+		C.PreviousHash = c14Hash(6, hc-1)
+		prevRight = false
+	}
+	same := verifNondetBool("candidate is the block already pooled/confirmed at that height")
+	if same && int(hc) <= len(chain) {
+		C = chain[hc-1]
+	} else {
+		same = false
+		C.TotalPlasma = verifNondetU64("candidate.TotalPlasma")
+		C.BasePlasma = verifNondetU64("candidate.BasePlasma")
+		verifAssume(C.TotalPlasma <= 10500000 && C.BasePlasma >= 21000 && C.BasePlasma <= 21000+68*16384, "plasma fields in the ranges the VM establishes")
+	}
+	force := verifNondetBool("forced insertion (sync)")
+	var err error
+	tx := &nom.AccountBlockTransaction{Block: C, Changes: db.NewPatch()}
+	if force {
+		err = ap.ForceAddAccountBlockTransaction(lock, tx)
+	} else {
+		err = ap.AddAccountBlockTransaction(lock, tx)
+	}
+	got := ap.GetUncommittedAccountBlocksByAddress(addr)
+	// invariants that hold whatever happened
+	prev := S.Identifier()
+	for _, b := range got {
+		verifAssert(b.Previous() == prev, "the pool is a single chain extending the last confirmed block")
+		prev = b.Identifier()
+	}
+	stableNow := account.NewAccountStore(addr, st.GetStableAccountDB(addr))
+	verifAssert(stableNow.Identifier() == S.Identifier(), "a confirmed block is never displaced by a pool operation")
+
+	unchanged := len(got) == pooledN
+	for i := range got {
+		if i < pooledN && got[i].Hash != chain[i+1].Hash {
+			unchanged = false
+		}
+	}
+	switch {
+	case !same && hc == frontier.Height+1 && prevRight:
+		verifReach("fast-forward", true)
+		verifAssert(err == nil && len(got) == pooledN+1 && got[pooledN].Hash == C.Hash, "a block extending the pool frontier is appended")
+	case same:
+		verifReach("already present", true)
+		if hc == 1 {
+			verifAssert(unchanged, "re-delivering the confirmed block changes nothing")
+		} else {
+			verifAssert(err == nil && unchanged, "re-inserting a pooled block changes nothing")
+		}
+	case hc <= 1:
+		verifReach("older than confirmed", true)
+		verifAssert(err != nil && unchanged, "a candidate at or below the confirmed height is refused")
+	case !prevRight || hc > frontier.Height+1:
+		verifReach("does not link", true)
+		verifAssert(err != nil && unchanged, "a candidate that does not link into the pool chain is refused")
+	default:
+		// a competitor of the block pooled at height hc
+		old := chain[hc-1]
+		wins := higherPriority(C, old) == nil
+		verifReach("competitor wins", wins && !force)
+		verifReach("competitor loses", !wins && !force)
+		if wins || force {
+			verifAssert(err == nil && uint64(len(got)) == hc-1 && got[hc-2].Hash == C.Hash, "the winner (or a forced block) replaces the pooled block and what was built on it")
+		} else {
+			verifAssert(err != nil && unchanged, "a losing competitor is refused")
+		}
+	}
+}
